@@ -12,6 +12,7 @@ import (
 	"hash"
 	"io"
 	"sort"
+	"strings"
 
 	"mellium.im/xmlstream"
 	"mellium.im/xmpp"
@@ -123,9 +124,15 @@ func (i Info) AppendHash(dst []byte, h hash.Hash) []byte {
 	}
 
 	// Hash forms
+	type hashForm struct {
+		formType string
+		data     string
+	}
+	forms := make([]hashForm, 0, len(i.Form))
 	for _, infoForm := range i.Form {
 		var formType string
-		fields := make([]string, 0, infoForm.Len()-1)
+		var buf strings.Builder
+		fields := make([]string, 0, infoForm.Len())
 		infoForm.ForFields(func(f form.FieldData) {
 			if f.Var == "FORM_TYPE" {
 				formType, _ = infoForm.GetString("FORM_TYPE")
@@ -134,24 +141,31 @@ func (i Info) AppendHash(dst []byte, h hash.Hash) []byte {
 			fields = append(fields, f.Var)
 		})
 		sort.Strings(fields)
-		/* #nosec */
-		io.WriteString(h, formType)
-		/* #nosec */
-		io.WriteString(h, "<")
+		buf.WriteString(formType)
+		buf.WriteString("<")
 		for _, f := range fields {
-			/* #nosec */
-			io.WriteString(h, f)
-			/* #nosec */
-			io.WriteString(h, "<")
+			buf.WriteString(f)
+			buf.WriteString("<")
 			vals, _ := infoForm.Raw(f)
 			sort.Strings(vals)
 			for _, val := range vals {
-				/* #nosec */
-				io.WriteString(h, val)
-				/* #nosec */
-				io.WriteString(h, "<")
+				buf.WriteString(val)
+				buf.WriteString("<")
 			}
 		}
+		forms = append(forms, hashForm{formType: formType, data: buf.String()})
+	}
+	// The forms themselves are sorted by FORM_TYPE (falling back to the rest of
+	// the data so that the result never depends on the order of the forms).
+	sort.Slice(forms, func(a, b int) bool {
+		if forms[a].formType != forms[b].formType {
+			return forms[a].formType < forms[b].formType
+		}
+		return forms[a].data < forms[b].data
+	})
+	for _, f := range forms {
+		/* #nosec */
+		io.WriteString(h, f.data)
 	}
 
 	dst = h.Sum(dst)
